@@ -965,6 +965,14 @@ func (g *Gen) instr(in ssa.Instruction, st *State) {
 			g.vals[v] = w.freshTyped("u", v.Type())
 		}
 	case *ssa.FieldAddr:
+		if nilFieldObs {
+			switch v.X.(type) {
+			case *ssa.Parameter, *ssa.UnOp, *ssa.Call, *ssa.Extract, *ssa.Phi, *ssa.TypeAssert, *ssa.Lookup:
+				if _, isPtr := v.X.Type().Underlying().(*types.Pointer); isPtr {
+					g.addNilOb(v.X, st, v.Pos())
+				}
+			}
+		}
 		base := g.resolveAddr(v.X, st)
 		if base.kind == "unknown" {
 			g.addrs[v] = base
@@ -1115,6 +1123,12 @@ func (g *Gen) instr(in ssa.Instruction, st *State) {
 	case *ssa.TypeAssert:
 		if !v.CommaOk {
 			g.vals[v] = w.freshTyped("ta", v.Type())
+		} else if _, isPtr := v.AssertedType.Underlying().(*types.Pointer); isPtr {
+			// x, ok := i.(*T): when ok, x is taken to be non-nil (interface values holding a typed nil pointer are not modelled: listed)
+			val := g.tupleElem(v, 0, v.AssertedType)
+			ok := g.tupleElem(v, 1, types.Typ[types.Bool])
+			w.assume(fmt.Sprintf("(=> %s (not (= %s 0)))", ok.S, val.S))
+			g.note("spec used: comma-ok type assertion to a pointer type yields non-nil when ok")
 		}
 	case *ssa.Range:
 	case *ssa.Next:
@@ -1161,14 +1175,32 @@ func (g *Gen) instr(in ssa.Instruction, st *State) {
 	}
 }
 
+// nilFieldObs: field accesses through a pointer value generate a nil-dereference obligation (GOVC_NILFIELD=0 switches it off).
+var nilFieldObs = os.Getenv("GOVC_NILFIELD") != "0"
+
+// sweepNil: nil-dereference obligations are also generated for functions without a contract (set per unit).
+var sweepNil = false
+
+// assumeNonNilParams (unit attribute nonnil_params=on): a function WITHOUT a contract assumes its pointer-typed
+// parameters and receiver non-nil at entry; in exchange every call from a function of the unit to a function of the
+// repository that has no contract must pass non-nil pointers (obligation `arg_nonnil`), so the assumption is checked
+// modularly inside the unit. A function that is legitimately called with nil needs an explicit contract.
+var assumeNonNilParams = false
+
 func (g *Gen) addNilOb(p ssa.Value, st *State, pos token.Pos) {
-	// nil-dereference obligations are only generated in contract mode and only for parameters/loads (cheap heuristic)
-	if g.ctr == nil {
+	if g.ctr == nil && !sweepNil {
 		return
 	}
-	if _, isParam := p.(*ssa.Parameter); !isParam {
-		if _, isLoad := p.(*ssa.UnOp); !isLoad {
-			return
+	switch p.(type) {
+	case *ssa.Parameter, *ssa.UnOp, *ssa.Call, *ssa.Extract, *ssa.Phi, *ssa.TypeAssert, *ssa.Lookup:
+	default:
+		return // addresses computed from other pointers (field/element addresses, locals, globals) are never nil themselves
+	}
+	if !nilFieldObs {
+		if _, isParam := p.(*ssa.Parameter); !isParam {
+			if _, isLoad := p.(*ssa.UnOp); !isLoad {
+				return
+			}
 		}
 	}
 	t := g.val(p, st)
@@ -1630,6 +1662,18 @@ func (g *Gen) call0(c *ssa.CallCommon, res ssa.Value, st *State, pos token.Pos) 
 		w.assume(fmt.Sprintf("(and (<= 0 %s) (<= %s (slen %s)))", n.S, n.S, av(0).S))
 		g.note("spec used: io.Reader.Read ensures 0 <= n <= len(p)")
 		return
+	}
+	if assumeNonNilParams {
+		if callee, ok := c.Value.(*ssa.Function); ok && callee.Blocks != nil && strings.Contains(name, "github.com/tmpim/casket") {
+			for i, a := range args {
+				if _, isPtr := a.Type().Underlying().(*types.Pointer); isPtr {
+					if _, isAlloc := a.(*ssa.Alloc); isAlloc {
+						continue
+					}
+					g.addOb("nil", fmt.Sprintf("call_%s@%d/arg%d_nonnil", callee.Name(), g.w.prog.Fset.Position(pos).Line, i), pos, st, fmt.Sprintf("(not (= %s 0))", av(i).S))
+				}
+			}
+		}
 	}
 	impure := strings.HasPrefix(name, "invoke:") || name == "dynamic" || strings.Contains(name, "github.com/tmpim/casket")
 	if impure && os.Getenv("GOVC_HAVOC_UNKNOWN") != "" {
